@@ -221,40 +221,68 @@ func runCase(k *mon.Case) {
 	}
 	win := int(p.MinerConfirmationWindow)
 	k.Desc(map[string]any{"window": win, "threshold": p.RuleChangeActivationThreshold, "deps": deps2desc(deps)})
-	// per-window voting intensity per deployment
-	voteBlock := func(parent *refchain.Block, bias []int) *refchain.Block {
-		v := uint32(0x20000000)
+	// per-window voting plan per deployment: either a voting intensity or an exact number of signalling blocks at the
+	// deployment's threshold -1 / +0 / +1 placed at random positions of the window; a window may also "vote" with the
+	// wrong top bits (011, 010, plain version 4: never a signal under BIP9, whatever the deployment bits say)
+	type plan struct {
+		bias  []int
+		exact [][]bool // exact[i] != nil: position -> votes
+		top   uint32
+	}
+	voteBlock := func(parent *refchain.Block, pl *plan, pos int) *refchain.Block {
+		v := pl.top
 		if r.Chance(1, 12) {
-			v = []uint32{4, 0x40000000, 0x30000000, 0x20000000}[r.Intn(4)] // some non-signalling top-bit patterns
+			v = []uint32{4, 0x40000000, 0x30000000, 0x20000000, 0x60000000}[r.Intn(5)] // some non-signalling top-bit patterns
 			if v == 0x30000000 {
 				v = 0x20000000 | 1<<28
 			}
 		}
 		for i, d := range deps {
-			if r.Intn(100) < bias[i] {
+			vote := r.Intn(100) < pl.bias[i]
+			if pl.exact[i] != nil {
+				vote = pl.exact[i][pos%len(pl.exact[i])]
+			}
+			if vote {
 				v |= 1 << d.ref.Bit
 			}
+		}
+		if v&0xe0000000 != 0x20000000 {
+			k.Count("vote.blocks_with_foreign_top_bits", 1)
 		}
 		step := int64(300 + r.Intn(900))
 		return g.Block(r, parent, chaingen.BlockOpts{NTx: r.Intn(2), Version: int32(v), TimeStep: step})
 	}
-	newBias := func() []int {
-		b := make([]int, len(deps))
-		for i := range b {
-			b[i] = []int{0, 30, 70, 90, 100}[r.Intn(5)]
+	newPlan := func() *plan {
+		pl := &plan{bias: make([]int, len(deps)), exact: make([][]bool, len(deps)), top: 0x20000000}
+		if r.Chance(1, 7) {
+			pl.top = []uint32{0x60000000, 0x40000000, 4}[r.Intn(3)]
+			k.Count("vote.windows_with_foreign_top_bits", 1)
 		}
-		return b
+		for i := range pl.bias {
+			pl.bias[i] = []int{0, 30, 70, 90, 100}[r.Intn(5)]
+			if r.Chance(1, 3) {
+				n := int(deps[i].ref.Threshold) - 1 + r.Intn(3)
+				n = max(0, min(n, win))
+				ex := make([]bool, win)
+				for _, j := range r.Perm(win)[:n] {
+					ex[j] = true
+				}
+				pl.exact[i] = ex
+				k.Count("vote.windows_at_threshold", 1)
+			}
+		}
+		return pl
 	}
 	tip := g.Tree.Genesis
 	nWindows := 5 + r.Intn(6)
-	bias := newBias()
+	pl := newPlan()
 	var forkPoints []*refchain.Block
 	for i := 0; i < nWindows*win && !s.Failed; i++ {
-		if i%win == 0 {
-			bias = newBias()
-			// aim one deployment at the threshold +-1 in this window
+		// block i+1 has height i+1: a window of heights [k*win, (k+1)*win) starts with the block built at i = k*win-1
+		if (i+1)%win == 0 {
+			pl = newPlan()
 		}
-		tip = voteBlock(tip, bias)
+		tip = voteBlock(tip, pl, i+1)
 		s.DeliverBlock(tip)
 		w.checkTip("extend")
 		if r.Chance(1, 10) {
@@ -277,12 +305,12 @@ func runCase(k *mon.Case) {
 		}
 		b := fp
 		n := int(s.Tip.Height-fp.Height) + 1 + r.Intn(win)
-		bias = newBias()
+		pl = newPlan()
 		for j := 0; j < n && !s.Failed; j++ {
-			if j%win == 0 {
-				bias = newBias()
+			if int(b.Height+1)%win == 0 {
+				pl = newPlan()
 			}
-			b = voteBlock(b, bias)
+			b = voteBlock(b, pl, int(b.Height+1))
 			s.DeliverBlock(b)
 			w.checkTip("side")
 		}
@@ -328,6 +356,8 @@ func main() {
 			"block ThresholdState/IsDeploymentActive/CalcNextBlockVersion are compared with a from-genesis BIP9 evaluation, states are queried at random nodes of all branches in random " +
 			"order, and a BIP113-sensitive template probes that the CSV-gated rule flips exactly at activation; distinct = (window, threshold, size, final tip)")
 		c.Family("bip9", c.N(200, 12000), runCase)
+		c.Require("vote.windows_with_foreign_top_bits", 50)
+		c.Require("vote.windows_at_threshold", 500)
 		for _, st := range []string{"Defined", "Started", "LockedIn", "Active", "Failed"} {
 			c.Require("state."+st, 50)
 		}
